@@ -37,6 +37,7 @@ var level = map[string]int{"or": 0, "and": 1, "=": 2, "!=": 2, "<": 3, "<=": 3, 
 // operand kinds (source text); the last two are paths for '|'
 var operands = []string{"2", "'3'", "true()", "string-length('ab')", "n5", "(1 + 2)"}
 var numeric = []string{"2", "7"}
+var stepOperands = []string{".", "..", "*", "n5/..", "n5/.", "div", "n5[1]"}
 
 var tree, refVals = xpx.ScalarTree()
 var env = xpx.ScalarEnv(refVals)
@@ -318,6 +319,9 @@ func run(c *engine.Ctx) {
 	r := &runner{c: c}
 	r.chains(3, operands, "")
 	r.chains(4, numeric, "")
+	// operands that end in an abbreviated step, a wildcard or a name that is also an operator
+	// name: whether the next token is an operator is decided by the token before it (XPath 3.7)
+	r.chains(3, stepOperands, "")
 	r.chains(3, numeric, "boolean(%)")
 	r.chains(3, numeric, "concat(%, 'x')")
 	r.chains(2, numeric, "substring('abcdef', %, 2)")
